@@ -170,6 +170,31 @@ def _conv(x, kind):
     raise AssertionError(kind)
 
 
+def _lossy(src, dst):
+    """float64 -> float32 (or lower) conversion while the harness asked for rounding to be modelled"""
+    if src is None or dst is None or not (src.is_floating_point and dst.is_floating_point) or dst.bits >= src.bits:
+        return False
+    try:
+        import torch
+        return bool(torch.KERNELS.get("lossy_casts"))
+    except Exception:  # noqa
+        return False
+
+
+def _round_to(x, dst):
+    """a down-cast is NOT the identity on reals: the result is an arbitrary nearby value (fresh, unconstrained) unless x is a small dyadic
+    rational, which every binary float format represents exactly.  Obligations that hold under this model hold whatever the rounding does."""
+    if isinstance(x, R) and x.conc:
+        f = x.frac()
+        d = f.denominator
+        if d & (d - 1) == 0 and d <= 2 ** 20 and abs(f.numerator) < 2 ** 20:
+            return x
+    if isinstance(x, Sp):
+        return x
+    log("lossy_cast", str(dst))
+    return symx.fresh("rnd")
+
+
 def _default_dtype(kind):
     return {"real": float32, "bool": bool_, "int": int64}[kind]
 
@@ -543,6 +568,8 @@ class Arr:
             if type(val) is not type(self):
                 raise TypeError(f"can't assign a {type(val).__name__} to a {type(self).__name__}")
             vals = _broadcast_to(val, target.shape)._flat()
+            if self.kind == "real" and val.kind == "real" and _lossy(val.dtype, self.dtype):
+                vals = [_round_to(x, self.dtype) for x in vals]
         else:
             vals = [val] * target.numel()
         target._write(vals)
@@ -560,6 +587,8 @@ class Arr:
         if isinstance(dtype, str):
             dtype = _DT[dtype]
         kind = "real" if dtype.is_floating_point else ("bool" if dtype is bool_ else "int")
+        if self.kind == "real" and kind == "real" and _lossy(self.dtype, dtype):
+            return type(self)._make([_round_to(x, dtype) for x in self._flat()], self.shape, dtype, kind)
         return type(self)._make([_conv(x, kind) for x in self._flat()], self.shape, dtype, kind)
 
     def astype(self, dtype):
@@ -793,7 +822,10 @@ class Arr:
             order = {"bool": 0, "int": 1, "real": 2}
             if order[res.kind] > order[self.kind]:
                 raise RuntimeError(f"result type {res.dtype} can't be cast to the desired output type {self.dtype}")
-        self._write(res._flat())
+        fl = res._flat()
+        if self.kind == "real" and res.kind == "real" and _lossy(res.dtype, self.dtype):
+            fl = [_round_to(x, self.dtype) for x in fl]
+        self._write(fl)
         return self
 
     def __iadd__(self, o):
